@@ -254,6 +254,42 @@ func TestC08(t *testing.T) {
 				batch = append(batch, w)
 			}
 		}
+		// a relay that drains a burst first and forwards afterwards: frames retained across later reads stay intact
+		for rounds := 0; rounds < vh.Pick(6, 100); rounds++ {
+			var specs [][]byte
+			var stream []byte
+			for i := 0; i < 8+r.Intn(20); i++ {
+				cfg := c01cfg{version: 1 + r.Intn(2)}
+				cfg.signed = cfg.version == 2 && r.Chance(2, 3)
+				w := ref.Serialize(c01random(r, cfg))
+				specs = append(specs, w)
+				stream = append(stream, w...)
+			}
+			rd := &frame.Reader{ByteReader: &chunkReader{data: stream, r: r.Fork(), max: 300}}
+			_ = rd.Initialize()
+			var held []frame.Frame
+			for range specs {
+				fr, err := rd.Read()
+				if err != nil {
+					break
+				}
+				held = append(held, fr)
+			}
+			rw := &recWriter{}
+			fw := &frame.Writer{ByteWriter: rw}
+			_ = fw.Initialize()
+			for i, fr := range held {
+				rw.reset()
+				_ = fw.Write(fr)
+				rep.Eval(1)
+				rep.Count("drained_then_forwarded", 1)
+				if !bytes.Equal(rw.all(), specs[i]) {
+					rep.Violation("msg=raw ver=0 enc=raw what=bytes", "a frame kept while later frames were read from the same reader is forwarded with different bytes",
+						map[string]interface{}{"received": vh.Hex(specs[i]), "forwarded": vh.Hex(rw.all()), "index": i})
+					break
+				}
+			}
+		}
 		rt, err := newRouter(nil, gomavlib.V2, nil, nil)
 		if err != nil {
 			t.Fatal(err)
@@ -378,6 +414,38 @@ func TestC08(t *testing.T) {
 				rep.Eval(1)
 				rep.Count("node_router_dialect_frames", 1)
 				env.checkForwarded("node-router", forRouter[i].mi, forRouter[i].in, wires[i], outs[i], forRouter[i].class, nil)
+			}
+		}
+	}
+
+	// frames whose id is NOT in the router's dialect travel through a dialect node byte for byte
+	{
+		rt, err := newRouter(&dialect.Dialect{Version: 3, Messages: dmsgs}, gomavlib.V2, nil, nil)
+		if err != nil {
+			t.Fatal(err)
+		}
+		var wires [][]byte
+		for i := 0; i < vh.Pick(300, 5000); i++ {
+			cfg := c01cfg{version: 1 + r.Intn(2)}
+			cfg.signed = cfg.version == 2 && r.Chance(1, 2)
+			s := c01random(r, cfg)
+			for genv.drw.GetMessage(s.MsgID) != nil {
+				s.MsgID = (s.MsgID + 1) & 0xFF
+			}
+			wires = append(wires, ref.Serialize(s))
+		}
+		outs := rt.forward(rep, wires, 1)
+		rt.close()
+		if len(outs) != len(wires) {
+			rep.Violation("msg=unknown ver=0 enc=raw what=bytes", fmt.Sprintf("Node router (dialect) forwarded %d of %d frames with ids outside its dialect", len(outs), len(wires)), nil)
+		}
+		for i := range outs {
+			rep.Eval(1)
+			rep.Count("node_router_unknown_id_frames", 1)
+			if !bytes.Equal(outs[i], wires[i]) {
+				rep.Violation("msg=unknown ver=0 enc=raw what=bytes", "a frame with an id outside the router's dialect was forwarded with different bytes",
+					map[string]interface{}{"received": vh.Hex(wires[i]), "forwarded": vh.Hex(outs[i])})
+				break
 			}
 		}
 	}
